@@ -95,6 +95,10 @@ var c10PointOps = map[string]bool{
 	"Clear": true, "Size": true, "IsEmpty": true, "Size1": true, "Size2": true,
 }
 
+// c10PanickingCmp: caller-supplied comparators panic on their second call (state 3 of the
+// method sweep): the structure must survive a callback that fails
+var c10PanickingCmp bool
+
 // longKeys: string keys are 40+ bytes in this run (set per run from the tape; the model
 // replays with the same setting because it is stored in the run's data)
 var longKeys bool
@@ -174,7 +178,12 @@ func mkArgs(name string, mt reflect.Type, key, val int) ([]reflect.Value, bool) 
 			}
 		case reflect.Func:
 			// comparator func(a, b K) bool
+			calls := 0
 			args[i] = reflect.MakeFunc(pt, func(in []reflect.Value) []reflect.Value {
+				calls++
+				if c10PanickingCmp && calls == 2 {
+					panic("comparator: cannot compare these two")
+				}
 				return []reflect.Value{reflect.ValueOf(fmt.Sprint(in[0].Interface()) < fmt.Sprint(in[1].Interface()))}
 			})
 		case reflect.Slice:
@@ -482,6 +491,9 @@ func c10Cells() []c10Cell {
 			if hasMax {
 				c10CellsCache = append(c10CellsCache, c10Cell{ti, n, 2})
 			}
+			if m, _ := rt.MethodByName(n); m.Type.NumIn() == 2 && m.Type.In(1).Kind() == reflect.Func {
+				c10CellsCache = append(c10CellsCache, c10Cell{ti, n, 3})
+			}
 		}
 	}
 	return c10CellsCache
@@ -506,13 +518,17 @@ func c10MethodsBody(rc *RunCtx) {
 	t := c10Types[c.ti]
 	d := &c10Data{Type: t.Name, ti: c.ti}
 	d.Label = t.Name + "." + c.method
-	d.Label += []string{"(empty)", "(populated)", "(bounded,full)"}[c.state]
+	d.Label += []string{"(empty)", "(populated)", "(bounded,full)", "(populated, comparator panics)"}[c.state]
+	c10PanickingCmp = c.state == 3
+	defer func() { c10PanickingCmp = false }()
 	rc.Data = d
 	rc.Label = d.Label
 	obj := t.New(0)
 	if c.state >= 1 {
-		if c.state == 2 {
-			reflect.ValueOf(obj).MethodByName("SetMax").Call([]reflect.Value{reflect.ValueOf(3)})
+		if c.state == 2 || c.state == 3 {
+			if sm := reflect.ValueOf(obj).MethodByName("SetMax"); sm.IsValid() {
+				sm.Call([]reflect.Value{reflect.ValueOf(3)})
+			}
 		}
 		populate(obj, 3, 11) // keys 11..13: the swept call (key 2) is a NEW key, so a bounded full instance must evict
 		if t.Name == "RequestDoubleQueue" {
@@ -553,6 +569,22 @@ func c10MethodsBody(rc *RunCtx) {
 	}
 	if strings.HasPrefix(op.Out, "panic:") {
 		d.Panicked = op.Out
+	}
+	if c.state == 3 && tk.Done() {
+		// the callback failed in the middle of the operation: the structure must still be whole
+		// and usable (a new key can be put, on a full bounded instance too)
+		if bad := c10Integrity(obj, []int{2, 11, 12, 13, 14}, 0); bad != "" {
+			rc.Violate("C10", "corruption", "corrupt-after-failed-callback:"+d.Label, fmt.Sprintf("%s: after the comparator panicked: %s", d.Label, bad))
+		}
+		tk2 := simrt.GoNamed("after", func() {
+			invoke(obj, "Put", 99, 9999)
+			invoke(obj, "Size", 0, 0)
+		})
+		simrt.Settle(int64(30 * time.Second))
+		if !tk2.Done() {
+			_, what := tk2.Blocked()
+			rc.Violate("C10", "blocks-forever", "blocked-after-failed-callback:"+d.Label, fmt.Sprintf("%s: after the comparator panicked a Put of a new key did not return: blocked on %s", d.Label, what))
+		}
 	}
 }
 
